@@ -709,3 +709,165 @@ func implementsLoosely(t types.Type, iface *types.Interface) bool {
 	}
 	return iface.NumMethods() > 0
 }
+
+// R-MUSTUSE, cross-kind clause (C15 "an enum offering values outside the consumer's set ... numeric/size ranges that
+// cannot overlap"): a kind that declares bounds may accept a producer of ANOTHER kind (an integer schema accepts an
+// integer enum) only after it has looked at its own bounds - directly, or by running one of its own data operations
+// (Validate, Serialize, ...) that does. Obligation: in the ValidateCompatibility method of every kind with json min /
+// max, every accepting return that lies under `other.TypeID() == C` for a type ID C that is not the kind's own has, on
+// every path, passed a read of both... of a bound of the receiver or a call of a receiver method that reads them.
+func (c *Ctx) ruleCrossKindBounds(rule string) {
+	n := 0
+	for _, named := range c.serializableTypes() {
+		tags := jsonTagsOf(named)
+		if tags["min"] == nil || tags["max"] == nil {
+			continue
+		}
+		fn := c.methodFn(named, "ValidateCompatibility")
+		if fn == nil || !strings.HasPrefix(c.M.Key(fn), "schema."+named.Obj().Name()+".") {
+			continue
+		}
+		own := ""
+		if tf := c.methodFn(named, "TypeID"); tf != nil {
+			for _, r := range core.ReturnsOf(tf) {
+				if s, ok := core.ConstString(core.RetVal(r, 0)); ok {
+					own = s
+				}
+			}
+		}
+		isRecvType := func(t types.Type) bool {
+			if p, ok := t.Underlying().(*types.Pointer); ok {
+				t = p.Elem()
+			}
+			nt, ok := t.(*types.Named)
+			return ok && nt.Obj() == named.Obj()
+		}
+		readsBound := func(in ssa.Instruction) bool {
+			switch x := in.(type) {
+			case *ssa.FieldAddr:
+				if isRecvType(x.X.Type()) {
+					if st := fieldsOfType(x.X.Type()); st != nil {
+						t := jsonTag(st, x.Field)
+						return t == "min" || t == "max"
+					}
+				}
+			case *ssa.Field:
+				if isRecvType(x.X.Type()) {
+					if st := fieldsOfType(x.X.Type()); st != nil {
+						t := jsonTag(st, x.Field)
+						return t == "min" || t == "max"
+					}
+				}
+			}
+			return false
+		}
+		memo := map[*ssa.Function]bool{}
+		var consults func(g *ssa.Function, d int) bool
+		consults = func(g *ssa.Function, d int) bool {
+			if v, ok := memo[g]; ok {
+				return v
+			}
+			memo[g] = false
+			if d > 3 {
+				return false
+			}
+			for _, b := range g.Blocks {
+				for _, in := range b.Instrs {
+					if readsBound(in) {
+						memo[g] = true
+						return true
+					}
+					if call, ok := in.(*ssa.Call); ok {
+						if callee := call.Call.StaticCallee(); callee != nil && callee.Signature.Recv() != nil && isRecvType(callee.Signature.Recv().Type()) && consults(callee, d+1) {
+							memo[g] = true
+							return true
+						}
+					}
+				}
+			}
+			return false
+		}
+		gen := func(b *ssa.BasicBlock) bool {
+			for _, in := range b.Instrs {
+				if readsBound(in) {
+					return true
+				}
+				if call, ok := in.(*ssa.Call); ok {
+					if callee := call.Call.StaticCallee(); callee != nil && callee != fn && callee.Signature.Recv() != nil && isRecvType(callee.Signature.Recv().Type()) && consults(callee, 0) {
+						return true
+					}
+				}
+			}
+			return false
+		}
+		hold := mustHoldGen(fn, func(core.Cond) bool { return false }, gen)
+		ei := core.ErrorResultIndex(fn.Signature)
+		cnt := 0
+		for _, ret := range core.ReturnsOf(fn) {
+			if ei < 0 || !core.IsNilConst(core.RetVal(ret, ei)) {
+				continue
+			}
+			other := ""
+			for _, cond := range core.CondsAt(ret.Block()) {
+				bin, ok := cond.V.(*ssa.BinOp)
+				if !ok || bin.Op != token.EQL || !cond.True {
+					continue
+				}
+				for _, pr := range [][2]ssa.Value{{bin.X, bin.Y}, {bin.Y, bin.X}} {
+					call, isCall := pr[0].(*ssa.Call)
+					if !isCall || !call.Call.IsInvoke() || call.Call.Method.Name() != "TypeID" {
+						continue
+					}
+					if s, ok := core.ConstString(pr[1]); ok && s != own {
+						other = s
+					}
+				}
+			}
+			if other == "" {
+				continue
+			}
+			n++
+			cnt++
+			k := key(rule, c.M.Key(fn), sprintf("accepting return #%d for a producer of kind %q has looked at the own bounds", cnt, other))
+			// a producer that offers nothing at all (len(values) == 0 of the list that the consulting loop walks) cannot
+			// offer anything outside the bounds
+			offersNothing := false
+			for _, cond := range core.CondsAt(ret.Block()) {
+				bin, ok := cond.V.(*ssa.BinOp)
+				if !ok || bin.Op != token.EQL || !cond.True {
+					continue
+				}
+				for _, pr := range [][2]ssa.Value{{bin.X, bin.Y}, {bin.Y, bin.X}} {
+					lc, isCall := pr[0].(*ssa.Call)
+					if !isCall {
+						continue
+					}
+					if bi, isBI := lc.Call.Value.(*ssa.Builtin); !isBI || bi.Name() != "len" {
+						continue
+					}
+					if z, isConst := core.ConstInt(pr[1]); isConst && z == 0 {
+						// the measured slice is the one a loop of this function hands, element by element, to a consulting method
+						for _, ob := range fn.Blocks {
+							for _, oin := range ob.Instrs {
+								if ia, isIA := oin.(*ssa.IndexAddr); isIA && ia.X == lc.Call.Args[0] {
+									offersNothing = true
+								}
+							}
+						}
+					}
+				}
+			}
+			if offersNothing {
+				c.R.Ok(rule, k, c.M.InstrPos(ret), "acceptance of a producer of another kind", "taken only where the producer offers no value at all (the list of offered values, which the consulting loop walks, is empty)")
+			} else if hold[ret.Block()] || gen(ret.Block()) {
+				c.R.Ok(rule, k, c.M.InstrPos(ret), "acceptance of a producer of another kind", "on every path a bound of the receiver was read, or a method of the receiver that reads them was called")
+			} else {
+				c.R.Bad(rule, k, c.M.InstrPos(ret), "a producer of another kind is accepted without a look at the own bounds",
+					"a "+named.Obj().Name()+" with min / max accepts every schema of kind "+other+": an enum none of whose values lies within the bounds can never be consumed, yet is reported compatible (the same producer written as a range is refused)")
+			}
+		}
+	}
+	if n < 2 {
+		c.R.Unresolved(rule, sprintf("accepting returns for producers of another kind in bounded kinds (%d found, at least 2 expected)", n))
+	}
+}
